@@ -474,6 +474,12 @@ func scnC15Faults(rc *RunCtx) {
 		}
 		return
 	}
+	if !returned && (fault == "write-error") && rec.Calls < rec.FailAt {
+		// the write that was to fail never happened: the failure did not occur in this run
+		rc.Sim.Count("c15.fault_not_fired")
+		rc.R.NonTrivial = false
+		return
+	}
 	if !returned {
 		rc.Fail("C15", "failure-dropped", "fault %s (position %d, write failing at event %d): the audit processor kept running instead of stopping with an error; %d events emitted; alive: %v",
 			fault, pos, rec.FailAt, len(rec.Events), rc.Sim.Live())
